@@ -236,16 +236,16 @@ pub fn run(cx: &Ctx) {
         let ty = ty.to_string();
         let strat = move || {
             let ty = ty.clone();
-            (vec((first_value(kind), second_value(kind)), 0..60), vec(any::<proptest::sample::Index>(), 0..5), vec(0u8..5, 6)).prop_map(move |(vals, ix, paths)| {
+            (prop_oneof![3 => vec((first_value(kind), second_value(kind)), 0..60), 1 => vec((first_value(kind), second_value(kind)), 60..700)], vec(any::<proptest::sample::Index>(), 0..5), vec(0u8..5, 6)).prop_map(move |(vals, ix, paths)| {
                 let n = vals.len();
                 let mut cuts: Vec<usize> = ix.iter().map(|i| i.index(n + 1)).collect();
                 cuts.sort();
                 Ingest { ty: ty.clone(), vals, cuts, paths }
             })
         };
-        cx.run_pt(&Paths, cx.by(250, 5000), cx.workers.min(8), strat, "sequences of 0..60 observations, up to 6 segments, every combination of paths");
+        cx.run_pt(&Paths, cx.by(250, 5000), cx.workers.min(8), strat, "sequences of 0..700 observations (3/4 shorter than 60), up to 6 segments, every combination of paths");
     }
-    let strat = || (vec(super::c11::c01_value(), 0..80), 0u8..4).prop_map(|(xs, ctor)| Conc { xs, ctor });
+    let strat = || (prop_oneof![3 => vec(super::c11::c01_value(), 0..80), 1 => vec(super::c11::c01_value(), 80..600)], 0u8..4).prop_map(|(xs, ctor)| Conc { xs, ctor });
     cx.run_pt(&Concat, cx.by(600, 10000), cx.workers, strat, "sequences of 0..80 observations x 4 constructors x 4 concatenate! structs");
 }
 
